@@ -12,4 +12,4 @@ def run(ctx):
         "repeated query names) and packets of more than 16 fragments are excluded from the numbering rule. "
         "F drawn from {2,3,7,50,100,199,200,500,1200,4093,4094,4095,8000,65535} and random. non-trivial = scenario "
         "with >=5 data fragments and >=1 completed packet; distinct over (qtype, codec, F bucket | negotiated).",
-        300, 20000, 50, 400, real_share=0.25)
+        300, 20000, 50, 150, real_share=0.25)
